@@ -82,6 +82,25 @@ def eval_call(eng, e, st):
             if fn == "rsa_ok":
                 return [(st, VBool(smt.rsa_ok(_box(vals[0]), ct)))]
             return [(st, VSeq(smt.rsa_pt(_box(vals[0]), ct), "bytes"))]
+        if fn in ("ws_split", "url_path", "url_query", "qsl", "url_ok") and fn not in st.env:
+            a_ = eng.as_iseq(st, eng.ev1(e.args[0], st)).t
+            if fn == "ws_split":
+                return [(st, VList(z3.Function("ws_split", ISq, VSq)(a_), "bytes", "list"))]
+            if fn == "qsl":
+                return [(st, VList(z3.Function("qsl", ISq, VSq)(a_), ("tuple", "bytes", "bytes"), "list"))]
+            if fn == "url_ok":
+                return [(st, VBool(z3.Function("url_ok", ISq, B)(a_)))]
+            return [(st, VSeq(z3.Function(fn, ISq, ISq)(a_), "bytes"))]
+        if fn in ("is_response", "is_request") and fn not in st.env:
+            v_ = eng.deref(st, eng.ev1(e.args[0], st))
+            want = "HttpResponse" if fn == "is_response" else "HttpRequest"
+            return [(st, VBool(isinstance(v_, VRecord) and v_.cls == want))]
+        if fn == "dlog" and fn not in st.env:
+            d_ = eng.ev1(e.args[0], st)
+            cell = st.heap.get(getattr(d_, "ident", None))
+            if not (isinstance(cell, dict) and cell.get("__kind__") == "dict"):
+                raise Unsupported("dlog() of a non-dict")
+            return [(st, VList(cell["log"], ("tuple", "bytes", "bytes"), "list"))]
         if fn == "same" and fn not in st.env:
             from .values import box as _bx
 
@@ -419,6 +438,14 @@ def builtin_call(eng, st, name, args, kwargs, node):
         if isinstance(f, VConst) and f.what == "builtin" and f.py == "ord" and isinstance(v, VSeq) and v.kind == "str":
             return [(st, VSeq(v.t, "ilist"))]
         raise Unsupported("map other than map(ord, str)")
+    if name == "dict":
+        from .heapmodel import new_dict
+        if not args:
+            return [(st, new_dict(eng, st))]
+        v = d(args[0])
+        if isinstance(v, VList):
+            return [(st, new_dict(eng, st, log=v.t))]
+        raise Unsupported("dict() of " + repr(v))
     if name == "abs":
         t = eng.as_int(st, args[0], node)
         return [(st, VInt(z3.If(t < 0, -t, t)))]
@@ -905,6 +932,8 @@ def seq_method(eng, st, s, name, args, kwargs, node):
     if name == "split":
         from .strmodel import split
         return [(st, split(eng, st, s, [d(a) for a in args], node))]
+    if name == "encode" and False:
+        pass
     if name == "decode":
         from .strmodel import decode
         return decode(eng, st, s, [d(a) for a in args], {k: d(v) for k, v in kwargs.items()}, node)
